@@ -481,6 +481,14 @@ def undefined_self_attrs(ct, ci):
         names = set()
         dynamic = False
         src_nodes = list(ast.walk(k.node))
+        # copying / pickling / restoring a whole __dict__ (copy, __getstate__, __setstate__,
+        # from_hdf5, save_hdf5) moves existing names around and creates none
+        benign = set()
+        for fn in ast.walk(k.node):
+            if isinstance(fn, ast.FunctionDef) and fn.name in (
+                    'copy', '__copy__', '__deepcopy__', '__getstate__', '__setstate__',
+                    'from_hdf5', 'save_hdf5', '__reduce__'):
+                benign.update(id(x) for x in ast.walk(fn))
         for st in k.node.body:
             if isinstance(st, ast.Assign):
                 for t in st.targets:
@@ -495,7 +503,7 @@ def undefined_self_attrs(ct, ci):
             if isinstance(n, ast.Attribute) and isinstance(n.ctx, (ast.Store, ast.Del)) and \
                     isinstance(n.value, ast.Name):
                 names.add(n.attr)          # stores on self, cls and on locals (obj, res, cp, ..)
-            elif isinstance(n, ast.Attribute) and n.attr == '__dict__':
+            elif isinstance(n, ast.Attribute) and n.attr == '__dict__' and id(n) not in benign:
                 dynamic = True
             elif isinstance(n, ast.Call) and isinstance(n.func, ast.Name) and \
                     n.func.id == 'setattr' and len(n.args) >= 2:
